@@ -122,6 +122,52 @@ theorem C25_fuel (G : Graph) (hwf : GWF G) (Q : Query) (rank : Nat → Nat) (hr 
   simp only [keepSet_fuel G hwf Q hpd hs ha, Bool.false_eq_true, ite_false]
   exact ⟨_, _, rfl⟩
 
+/-- a_test(3) tests lib1(1); z_test(4) tests klib(2) and lib1; bin(0) uses klib -/
+def gT0 : Graph := { nodes := [3, 0, 2, 1, 4],
+                     decl := fun | 0 => [2] | 3 => [1] | 4 => [2, 1] | _ => [], res := fun | 0 => [2] | 3 => [1] | 4 => [2, 1] | _ => [],
+                     isBinary := fun | 0 => true | 3 => true | 4 => true | _ => false, isTest := fun | 3 => true | 4 => true | _ => false,
+                     testOnly := fun _ => false, keepLabel := fun _ => false, hasParent := fun _ => false, pl := id,
+                     sibs := fun _ => [], srcs := fun _ => [], data := fun _ => [] }
+
+/-- An acyclic graph has a rank function that strictly decreases along the dependencies `publicDependencies` follows,
+bounded by the number of targets (the hypothesis of `C25_fuel`). -/
+theorem C25_ruleRank_of_acyclic (G : Graph) (hwf : GWF G) (hac : RuleAcyclic G) :
+    ∃ rank : Nat → Nat, (∀ t ∈ G.nodes, ∀ d, RuleEdge G t d → rank d < rank t) ∧ ∀ t ∈ G.nodes, rank t ≤ G.nodes.length :=
+  ruleRank_of_acyclic G hwf hac
+
+/-- Unconditional for acyclic graphs: on a graph that holds its dependencies and has no dependency cycle inside one
+rule (every graph that passed cycle detection), `targetsToRemove` always produces a result, and that result proposes
+no needed target, no rule of a needed hidden sub-target, and no file a needed target uses. -/
+theorem C25_main_acyclic (G : Graph) (hwf : GWF G) (hac : RuleAcyclic G) (Q : Query)
+    (hs : ∀ t ∈ Q.subincs, t ∈ G.nodes) (ha : ∀ t ∈ Q.args, t ∈ G.nodes) :
+    ∃ ts fs, targetsToRemove G Q = some (ts, fs) ∧
+      (∀ t ∈ ts, ¬ Needed G Q t) ∧
+      (∀ c, Needed G Q c → G.hasParent c = true → G.pl c ∉ ts) ∧
+      (∀ f ∈ fs, ∀ k, Needed G Q k → f ∉ G.srcs k ∧ f ∉ G.data k) := by
+  have hpd : ∀ t ∈ G.nodes, pubDeps G (G.nodes.length + 1) t ≠ none := fun t ht =>
+    pubDeps_terminates_acyclic G hwf hac _ t [] ht List.nodup_nil (by simp) (by simp)
+  have ho := keepSet_fuel G hwf Q hpd hs ha
+  have he : targetsToRemove G Q = some (removeTargets G Q (keepSet G Q).keep, removeSrcs G Q (keepSet G Q).keep) := by
+    unfold targetsToRemove
+    simp only [ho, Bool.false_eq_true, ite_false]
+  exact ⟨_, _, he, C25_targets G Q _ _ he, C25_subtargets G Q _ _ he, C25_srcs G Q _ _ he⟩
+
+-- non-vacuity: the test-order graph is acyclic and holds its dependencies
+example : GWF gT0 ∧ RuleAcyclic gT0 := by
+  refine ⟨by unfold GWF; decide, ?_⟩
+  intro t p
+  -- no two different targets of gT0 share a parent label, so there is no rule edge at all
+  have hno : ∀ a b, ¬ RuleEdge gT0 a b := by
+    intro a b ⟨hd, hpl⟩
+    have : b = a := hpl
+    subst this
+    unfold gT0 at hd
+    simp only at hd
+    split at hd <;> simp at hd
+  cases p with
+  | single e => exact hno _ _ e
+  | cons e _ => exact hno _ _ e
+
 /-! ## the four repaired shapes -/
 
 def noB : Nat → Bool := fun _ => false
